@@ -21,8 +21,8 @@
 #include "vp_dom.h"
 extern "C" {
 void vp_sym_bytes_n(QByteArray *out, unsigned maxlen);
-void vp_sym_bytes_exact(QByteArray *out, unsigned n);
-void vp_sym_string_exact(QString *out, unsigned n);
+void vp_c06_sym_bytes_exact(QByteArray *out, unsigned n);
+void vp_c06_sym_string_exact(QString *out, unsigned n);
 unsigned vp_cfg(unsigned i); unsigned vp_diglen();
 void vp_split_hint_begin(const QByteArray *ba, char sep); void vp_split_hint_piece(unsigned len);
 void vp_b64_expect_valid(bool on); void vp_toint_fix(unsigned v);
@@ -33,8 +33,8 @@ unsigned vp_orc_kind(unsigned i); unsigned vp_orc_alg(unsigned i); unsigned vp_o
 void vp_orc_in1(unsigned i, QByteArray *out); void vp_orc_in2(unsigned i, QByteArray *out);
 }
 static inline QByteArray vpBytesN(unsigned maxlen) { QByteArray b; vp_sym_bytes_n(&b, maxlen); return b; }
-static inline QByteArray vpBytesExact(unsigned n) { QByteArray b; vp_sym_bytes_exact(&b, n); return b; }
-static inline QString vpStringExact(unsigned n) { QString b; vp_sym_string_exact(&b, n); return b; }
+static inline QByteArray vpBytesExact(unsigned n) { QByteArray b; vp_c06_sym_bytes_exact(&b, n); return b; }
+static inline QString vpStringExact(unsigned n) { QString b; vp_c06_sym_string_exact(&b, n); return b; }
 static inline void hintPiecesOne(const QByteArray &m) { vp_split_hint_begin(&m, ','); vp_split_hint_piece(unsigned(m.size())); }
 // the next split(',') of ANY block has exactly one piece of this length (asserted by the model)
 static inline void hintAnyOnePiece(unsigned len) { vp_split_hint_begin(nullptr, ','); vp_split_hint_piece(len); }
